@@ -102,9 +102,6 @@ func (f *PostProcessorRegistrationDelegate) InitializeComponent(name string, m a
 	if err != nil {
 		return nil, err
 	}
-	if wrappedComponent == nil {
-		return m, nil
-	}
 	err = f.invokeInitMethods(name, wrappedComponent)
 	if err != nil {
 		return nil, err
@@ -137,19 +134,22 @@ func (f *PostProcessorRegistrationDelegate) invokeInitMethods(name string, compo
 
 func (f *PostProcessorRegistrationDelegate) applyPostProcessBeforeInitialization(c any, name string) (any, error) {
 	var (
-		current = c
-		err     error
+		result = c
+		err    error
 	)
+	var current any
 	for _, processor := range f.componentPostProcessors {
-		current, err = processor.PostProcessBeforeInitialization(current, name)
+		current, err = processor.PostProcessBeforeInitialization(result, name)
 		if err != nil {
 			return nil, errors.Wrapf(err, "component post processor %s apply post process before initialization", reflectx.Id(processor))
 		}
+		//like after initialization: nil means "nothing to substitute", the component goes on as it is (and is still initialized)
 		if current == nil {
-			return nil, nil
+			return result, nil
 		}
+		result = current
 	}
-	return current, nil
+	return result, nil
 }
 
 func (f *PostProcessorRegistrationDelegate) applyPostProcessAfterInitialization(c any, name string) (any, error) {
